@@ -18,6 +18,12 @@ predicate `C01G.Rfc4291` is in Lemmas/C01LGrammar.lean, the equivalence with the
 platform model in Lemmas/C01LGrammar2.lean / C01LGrammar3.lean (`pton6_iff_rfc4291`), and the
 fallback reader equals the platform model on all strings (`fallback_eq_platform_parse`).
 No `_partial` theorem is left in this file.
+
+Props/C01b.lean continues this file with the constructor-level characterisations for all strings:
+default mode = the BSD shorthand grammar (`default4_api`, `default_none_api`, `shorthand_api`),
+strict IPv4 (`strict4_api`), the exact ZEROFILL rewrite relation (`zerofill_rewrite`,
+`zerofill_shorthand`, `zerofill_negative`), `valid_ipv4`/`valid_ipv6` on strings with '/'
+(`valid_iff_all`) and `repr` (`repr_roundtrip`).
 -/
 import NetaddrVerif.Lemmas.C01LText6
 import NetaddrVerif.Lemmas.C01LStrict
